@@ -471,6 +471,11 @@ class ProcessContinuation(Event):
         """Advance the generator to its next yield and schedule the continuation."""
         from happysimulator.core.sim_future import SimFuture
 
+        # A crashed/paused entity executes nothing: its in-flight processes do
+        # not advance either (same rule as Event.invoke for new events).
+        if getattr(self.target, "_crashed", False):
+            return []
+
         tracing_on = _event_tracing_enabled
         if tracing_on:
             self.trace("process.resume.start")
